@@ -69,5 +69,40 @@ def derived(ci, ti, kind, di):
               bounds="7 derivations (strict_coercion with / without debug_trail, hide_traceback, via extend, there and back) x loader requested from the derived or "
                      "the parent retort first; 10 types; 10 pooled atoms (None, bools, ints, strs, float) bare or in 4 wrappers; compared with fresh retorts")
     mods.append(md)
+    mm = Module("c07_mapkinds").pre('''
+import collections, types, dataclasses, enum, typing
+from adaptix import Retort, name_mapping, flag_by_member_names
+# "no dict or str to a list" for every kind of Mapping, and for every loader that takes a sequence
+class MFlag(enum.Flag):
+    a = 1
+    b = 2
+@dataclasses.dataclass
+class MList:
+    a: Stub
+    b: Stub
+MS_TYPES = {"List": List[Stub], "TupleVar": Tuple[Stub, ...], "Tuple2": Tuple[Stub, Stub], "Set": Set[Stub], "Deque": Deque[Stub], "Sequence": typing.Sequence[Stub],
+            "ListAny": List[Any], "as_list_model": MList, "flag_names": MFlag}
+MS_RS = six_retorts([name_mapping(MList, as_list=True), flag_by_member_names(MFlag)] + STUB_RECIPE)
+MS_LD = {(n, k): r.get_loader(t) for n, t in MS_TYPES.items() for k, r in MS_RS.items()}
+MAP_KINDS = (dict, collections.OrderedDict, lambda d: collections.defaultdict(int, d), types.MappingProxyType, lambda d: collections.ChainMap(d, {}), collections.UserDict,
+             collections.Counter)
+def mapping_to_sequence(ti, mk, k0, k1, v):
+    name = list(MS_TYPES)[pick(ti, len(MS_TYPES))]
+    keys = (("a", "b"), (0, 1), ("a",), (1, 0), ())[pick(k0, 5)]
+    conv = MAP_KINDS[pick(mk, len(MAP_KINDS))]
+    data = conv({k: v for k in keys})
+    for dt in DT_MODES:
+        s = outcome(MS_LD[(name, (True, dt))], data)
+        if s[0] != "load_error": return False            # strict: a Mapping is never taken for a sequence
+        l = outcome(MS_LD[(name, (False, dt))], data)
+        if l[0] == "other_exc": return False
+    return True
+''')
+    mm.ob("mapping_never_a_sequence", "ti: int, mk: int, k0: int, k1: int, v: int", "return mapping_to_sequence(ti, mk, k0, k1, v)",
+          pre=["0 <= ti < 9", "0 <= mk < 7", "0 <= k0 < 5", "0 <= v <= 3"], timeout=120 if tier == "quick" else 400,
+          family="strict mode never takes a Mapping for a sequence, whatever the Mapping class",
+          bounds="9 sequence-taking loaders (list, tuples, set, deque, Sequence, List[Any], list-layout model, flag by member names) x 7 mapping kinds (dict, OrderedDict, defaultdict, "
+                 "MappingProxyType, ChainMap, UserDict, Counter) x 5 key sets (member names, indices, empty); 3 debug modes")
+    mods.append(mm)
     return Plan("C07", mods, assumptions=["CrossHair models of builtins (floats as reals: numeric boundary regions are owned by the E2 kernels)"],
                 bounds={}, outside=["strings longer than the bound"])
